@@ -371,11 +371,14 @@ func (f *fileBackedFile) VirtualApply(data any) bool {
 		// means that after a restart, the file is silently converted to
 		// a CAS-backed file. If it turns out this assumption is
 		// incorrect, StartBuild() will clean up the file for us.
-		if cachedDigest := f.getCachedDigest(); cachedDigest != digest.BadDigest {
+		f.lock.RLock()
+		cachedDigest, isExecutable := f.cachedDigest, f.isExecutable
+		f.lock.RUnlock()
+		if cachedDigest != digest.BadDigest {
 			p.Directory.Files = append(p.Directory.Files, &remoteexecution.FileNode{
 				Name:         p.Name.String(),
-				Digest:       f.cachedDigest.GetProto(),
-				IsExecutable: f.isExecutable,
+				Digest:       cachedDigest.GetProto(),
+				IsExecutable: isExecutable,
 			})
 		}
 	case *ApplyOpenReadFrozen:
